@@ -169,6 +169,9 @@ func lbvcCheckImage(img *lbvcCrashImage, opts Options) string {
 		sort.Slice(missing, func(i, j int) bool { return missing[i] < missing[j] })
 		return fmt.Sprintf("%s: completed appends at offsets %v are gone after the crash (reopened log reads %v)", where, missing, offs)
 	}
+	if newest := l.NewestOffset(); (len(offs) == 0 && newest >= 0 && newest >= l.OldestOffset() && l.OldestOffset() >= 0) || (len(offs) > 0 && newest != offs[len(offs)-1]) {
+		return fmt.Sprintf("%s: the reopened log reports newest offset %d but the messages that can be read are %v (an offset without a message)", where, newest, offs)
+	}
 	if hw := l.HighWatermark(); hw > img.hw {
 		return fmt.Sprintf("%s: recovered high watermark %d is above the one before the crash (%d)", where, hw, img.hw)
 	}
